@@ -1495,6 +1495,11 @@ func (is *iterScanner) Next() bool {
 		return false
 	}
 
+	if len(is.cols) != len(iter.meta.columns) {
+		// a later page can describe a different number of columns than the first one
+		is.cols = make([][]byte, len(iter.meta.columns))
+	}
+
 	for i := 0; i < len(is.cols); i++ {
 		col, err := iter.readColumn()
 		if err != nil {
